@@ -259,24 +259,29 @@ def dedupById : List NTomb → List NTomb
   | [] => []
   | t :: rest => if rest.any (·.id = t.id) then dedupById rest else t :: dedupById rest
 
-/-- node deletion records of the day (`delete_nodes`, `validate_node_deletions`, `NodeDeletionEntry::delete_all`) -/
-def applyNTombs (d : Defects) (rights : List Bool) (dst : Replica) (ts : List NTomb) : Replica :=
-  let ts := if d.deletionBatchKeyedById then dedupById ts else ts
-  let valid := ts.filter fun t =>
+/-- `validate_node_deletions`: the right is judged on the author of the row stored locally (any room, any entity) -/
+def validNTombs (rights : List Bool) (dst : Replica) (ts : List NTomb) : List NTomb :=
+  ts.filter fun t =>
     match dst.findId t.id with
     | some n => can rights t.author (n.author = t.author)
     | none => can rights t.author true
-  valid.foldl (fun r t =>
-    let hit : Node → Bool := fun n => n.id = t.id && (!d.syncDeletionRoomScoped || n.room = t.room)
-    let localDay : List Key :=
-      if d.syncDeletionLocalDayUnmarked then []
-      else (r.nodes.filter hit).map fun n => kNode n.room n.ent n.mdate
-    { r with nodes := r.nodes.filter (fun n => !hit n),
-             edges := if d.syncDeletionKeepsEdges then r.edges
-                      else if r.nodes.any hit
-                        then r.edges.filter (fun e => !(e.src = t.id || e.dest = t.id)) else r.edges,
-             ntombs := putNTomb t r.ntombs,
-             log := markAll ([kNode t.room t.ent t.ddate, kNode t.room t.ent t.mdate] ++ localDay) r.log }) dst
+
+/-- `NodeDeletionEntry::delete_all` for one record -/
+def applyNTomb (d : Defects) (r : Replica) (t : NTomb) : Replica :=
+  let hit : Node → Bool := fun n => n.id = t.id && (!d.syncDeletionRoomScoped || n.room = t.room)
+  let localDay : List Key :=
+    if d.syncDeletionLocalDayUnmarked then []
+    else (r.nodes.filter hit).map fun n => kNode n.room n.ent n.mdate
+  { r with nodes := r.nodes.filter (fun n => !hit n),
+           edges := if d.syncDeletionKeepsEdges then r.edges
+                    else if r.nodes.any hit
+                      then r.edges.filter (fun e => !(e.src = t.id || e.dest = t.id)) else r.edges,
+           ntombs := putNTomb t r.ntombs,
+           log := markAll ([kNode t.room t.ent t.ddate, kNode t.room t.ent t.mdate] ++ localDay) r.log }
+
+/-- node deletion records of the day (`delete_nodes`, `validate_node_deletions`, `NodeDeletionEntry::delete_all`) -/
+def applyNTombs (d : Defects) (rights : List Bool) (dst : Replica) (ts : List NTomb) : Replica :=
+  (validNTombs rights dst (if d.deletionBatchKeyedById then dedupById ts else ts)).foldl (applyNTomb d) dst
 
 /-- `Node::filter_existing`: `none` = not requested, `some old` = requested with the local row `old` -/
 def wanted (d : Defects) (dst : Replica) (n : Node) : Option (Option Node) :=
